@@ -294,9 +294,8 @@ pub fn split_top_level_commas(input: &str) -> Vec<&str> {
     let mut start = 0;
     let mut depth = 0;
     let mut in_string = false;
-    let chars: Vec<char> = input.chars().collect();
-
-    for (index, ch) in chars.iter().enumerate() {
+    // (byte offsets: the pieces are slices of `input`)
+    for (index, ch) in input.char_indices() {
         match ch {
             '"' => in_string = !in_string,
             '(' if !in_string => depth += 1,
